@@ -18,5 +18,5 @@ PROPS = {"C19": dict(
     budget={"quick": 600, "thorough": 2400},
     units=[
         rapid("skylight", "cmd/skylight", "^TestVerifC19Requests$", 3000, 20000),
-        plain("skylight", "cmd/skylight", "^TestVerifC19ClientRead$", 1, 10, ts=4),
+        plain("skylight", "cmd/skylight", "^TestVerifC19ClientRead$", 1, 3, ts=4),
     ])}
